@@ -52,7 +52,7 @@ PROPS = {
                 rule="a run = one seeded history (feed/merge/reset, checkpoints through either API with header/chunk/trailing/torn/lost faults, crashes with recovery from the log) over one family and configuration; non-trivial = executed at least one checkpoint round-trip or fault; distinct = distinct plan hash"),
     "C10": dict(level="exploration", units=[("skew_d", "c10d", 3, 1500, 40000, "base_d"), ("skew_q", "c10q", 3, 1500, 40000, "base_q"), ("skew_m", "c10m", 3, 1500, 40000, "base_m"),
                                               ("base_d", "c10d", 2, 1500, 40000, "skew_d"), ("base_q", "c10q", 2, 1500, 40000, "skew_q"), ("base_m", "c10m", 2, 1500, 40000, "skew_m"),
-                                              ("skew_d", "c10ld", 1, 1500, 40000), ("skew_m", "c10hm", 1, 60, 600), ("skew_q", "c10tq", 1, 600, 20000)],
+                                              ("skew_d", "c10ld", 1, 1500, 40000), ("skew_m", "c10hm", 1, 60, 600), ("skew_q", "c10tq", 1, 600, 20000), ("skew_q", "c10qq", 1, 1500, 40000)],
                 rule="a run = one seeded plan (family, configuration, history with checkpoints in every format variant) executed by BOTH the frozen baseline build (/verif/baseline = pinned commit + hook) and the current build; each side dumps image + what it reads back from it; the other side must read every image to the same version-stable observation (upgrade: skew_* reads base_* dumps; downgrade: base_* reads skew_* dumps), plus documented serial-version / family-id bytes, the 15 shipped reference images read identically by both versions, legacy Theta v1/v2 images (empty, exact, estimation shapes) synthesised by an encoder written from the layout and read through the bytes, stream and wrap readers, and inputs of every length 1..100 bytes hashed against the independent MurmurHash3 / XXH64; non-trivial = at least one peer image read; distinct = distinct plan hash; after every upgrade read of an hll or cpc image whose history is pure feeding, everything the writer had seen is offered again and must change nothing (restart with redelivery); world c10tq: t-digest images in the two big-endian formats of the reference implementation, synthesised by an encoder written from that layout, read through the bytes and the stream reader (k, weight, min, max, agreement of both, exact consumption)"),
     "C11": dict(level="fault_enumeration", units=[("store_d", "c11d", 6, 120, 2400), ("store_q", "c11q", 5, 100, 2000), ("store_m", "c11m", 5, 100, 2000)],
                 rule="a run = one sampled valid image (family, variant, configuration, seeded history) whose fault space is enumerated completely: every strict prefix x {bytes, stream} and every byte of the first 64 x 8 replacement values x {bytes, stream}; non-trivial = at least one fault executed; distinct = distinct plan hash (image)"),
